@@ -297,6 +297,10 @@ def c16() -> int:
     fsx(c, ("hivemc.w_imm", "make_res", {"variant": "core"}), ("hivemc.bundles", "c16", {}), K=2, H=6 if quick else 8, needs=["c16:apply_calls"])
     fsx(c, ("hivemc.w_imm", "make_req", {}), ("hivemc.bundles", "c16", {}), K=2 if quick else 3, H=7 if quick else 9, needs=["c16:apply_calls"])
     fsx(c, ("hivemc.w_imm", "make_grid", {}), ("hivemc.bundles", "c16", {}), K=2, H=7 if quick else 9, needs=["c16:apply_calls"])
+    # the built-in Dispatcher as carried-forward controller; stations throttled at run time (mid-power plugs)
+    fsx(c, ("hivemc.w_imm", "make_req", {"dispatcher": True, "name": "W-req+dispatcher/imm"}), ("hivemc.bundles", "c16", {}), K=2, H=6 if quick else 8, needs=["c16:carried_controller_steps"])
+    fsx(c, ("hivemc.w_imm", "make_res", {"variant": "core", "throttle": 0.24, "mechs": ("thirsty", "thirsty", "quiet"), "pairs": False, "name": "W-res/imm/throttled"}),
+        ("hivemc.bundles", "c16", {}), K=2, H=5 if quick else 7, needs=["c16:carried_controller_steps"])
     return c.finish()
 
 
